@@ -5,6 +5,7 @@ import (
 	"go/token"
 	"go/types"
 
+	"golang.org/x/tools/go/callgraph"
 	"golang.org/x/tools/go/ssa"
 )
 
@@ -60,12 +61,47 @@ func chanRoot(v ssa.Value) ssa.Value {
 				return nil
 			}
 			v = bound
+		case *ssa.Parameter:
+			// a channel handed to a named worker function: what every caller passes
+			if chanCG == nil {
+				return nil
+			}
+			fn := x.Parent()
+			idx := -1
+			for i, q := range fn.Params {
+				if q == x {
+					idx = i
+				}
+			}
+			nd := chanCG.Nodes[fn]
+			if nd == nil || idx < 0 || len(nd.In) == 0 {
+				return nil
+			}
+			var root ssa.Value
+			for _, e := range nd.In {
+				if e.Site == nil {
+					return nil
+				}
+				args := e.Site.Common().Args
+				if e.Site.Common().IsInvoke() || idx >= len(args) {
+					return nil
+				}
+				r := chanRoot(args[idx])
+				if r == nil || (root != nil && r != root) {
+					return nil
+				}
+				root = r
+			}
+			return root
 		default:
 			return nil
 		}
 	}
 	return nil
 }
+
+// chanCG is the call graph used to follow channels passed as arguments (set by arrivalOrder).
+var chanCG *callgraph.Graph
 
 // a local (not captured) channel variable is not a cell: its root is the MakeChan. A captured one is
 // an Alloc into which exactly one MakeChan is stored; rootKey maps both to one key.
@@ -123,6 +159,7 @@ func inCycle(b *ssa.BasicBlock) bool { return reachable(b, b) }
 func (g *a4) arrivalOrder() {
 	c, p := g.c, g.p
 	nrecv := 0
+	chanCG = p.CallGraph()
 	defer func() { c.Floor("G8-arrival-order", nrecv, 2) }()
 	for _, fn := range p.SrcFuncs() {
 		if fn.Blocks == nil || !p.IsModFunc(fn) {
@@ -161,11 +198,13 @@ func (g *a4) arrivalOrder() {
 					c.Fail("G8-arrival-order", key, pos, "receive inside a select: not analysed")
 					continue
 				}
-				owner := root.(ssa.Instruction).Parent()
-				// producers
+				// producers: every send in the module whose channel is this one
 				goSites := map[*ssa.Go]bool{}
 				direct, looped, nsend := false, false, 0
-				for _, f := range allFuncsUnder(owner) {
+				for _, f := range p.SrcFuncs() {
+					if f.Blocks == nil || !p.IsModFunc(f) {
+						continue
+					}
 					for _, fb := range f.Blocks {
 						for _, fi := range fb.Instrs {
 							sd, ok := fi.(*ssa.Send)
@@ -173,18 +212,16 @@ func (g *a4) arrivalOrder() {
 								continue
 							}
 							nsend++
-							gs := goSiteOf(f)
-							// walk up: a closure called from a goroutine body counts as that goroutine
-							for up := f; gs == nil && up.Parent() != nil && up != owner; up = up.Parent() {
-								gs = goSiteOf(up)
-							}
-							if gs == nil {
+							sites := spawnSitesOf(f, 0)
+							if len(sites) == 0 {
 								direct = true
 								continue
 							}
-							goSites[gs] = true
-							if inCycle(gs.Block()) {
-								looped = true
+							for _, gs := range sites {
+								goSites[gs] = true
+								if inCycle(gs.Block()) {
+									looped = true
+								}
 							}
 						}
 					}
@@ -622,4 +659,29 @@ func sameMsgVal(a, b ssa.Value) bool {
 		return ok && sameMsgVal(x.X, y.X)
 	}
 	return false
+}
+
+// spawnSitesOf: the go statements that run f - directly (closure or named function), or through the
+// closures / callers that enclose it.
+func spawnSitesOf(f *ssa.Function, depth int) []*ssa.Go {
+	if depth > 3 {
+		return nil
+	}
+	var out []*ssa.Go
+	if gs := goSiteOf(f); gs != nil {
+		out = append(out, gs)
+	}
+	if chanCG != nil {
+		if nd := chanCG.Nodes[f]; nd != nil {
+			for _, e := range nd.In {
+				if gs, ok := e.Site.(*ssa.Go); ok {
+					out = append(out, gs)
+				}
+			}
+		}
+	}
+	if len(out) == 0 && f.Parent() != nil {
+		return spawnSitesOf(f.Parent(), depth+1)
+	}
+	return out
 }
